@@ -10,6 +10,13 @@ BASELINE_OFF = ("cd /repo && env -u PYOPENAPI_GEN_VERIF /venv/bin/python -m pyte
 
 # id -> (category, technique, level text, level note, design ref)
 CHECKS = {
+    "C09": ("exploration", "runtime monitoring: byte-level differential between real generations (hash seed / process / clock / root), before-after snapshots with mtime_ns, tampering, recording wrapper on _show_diffs",
+            "Each document is generated in fresh processes under several PYTHONHASHSEED values, in a warm process after other documents, with the clock shifted and "
+            "into another root: all trees must be byte-identical (sha256 per file). A non-force re-run over the fresh output must succeed and leave bytes and "
+            "mtime_ns of every file untouched; after editing or deleting one generated file (client or core) the non-force run must fail. A wrapper on the real "
+            "ClientGenerator._show_diffs compares its verdict with an independent directory comparison on every call.",
+            "An extra user file in the output tree is not judged. Layouts: default core and explicit core packages.",
+            "DESIGN.md §4 C09"),
     "C19": ("exploration", "runtime monitoring: metamorphic differential between real generations (rendering and order variants) with manifests read back by introspection",
             "Each clean document is generated from its JSON, YAML-block, YAML-flow and YAML-with-unquoted-integer-status-keys renderings (no key sorting): the emitted "
             "trees must be byte-identical and no operation may be skipped. Random permutations of components.schemas, paths and properties are generated as "
